@@ -101,6 +101,15 @@ def transformers(tier):
     for a in chain:
         for b in chain:
             out.append(('seq', [a, b]))
+    # nested compositions (parenthesised, as a `def` gives them): ( ( a | b ) | c ), ( a | ( b | c ) ), also with identity as a member of the inner one
+    nest = [('identity',), ('case', 'upper'), ('replace', 'a', 'x', False, None), ('strip', None), ('filter', ('line-num', ('cmp', '==', 1)))]
+    for a in nest:
+        for b in nest:
+            for c in nest[1:]:
+                out.append(('seq', [('seq', [a, b]), c]))
+                out.append(('seq', [c, ('seq', [a, b])]))
+    out.append(('seq', [('strip', None), ('seq', [('replace', 'B', '_', False, None), ('seq', [('case', 'upper'), ('identity',)])])]))
+    out.append(('seq', [('seq', [('identity',), ('identity',)]), ('case', 'lower')]))
     if tier == 'thorough':
         for a in chain[:7]:
             for b in chain[:7]:
